@@ -398,7 +398,7 @@ INSTANCES["_traverse_dfs"] = ["traverse_dfs"]
 INSTANCES["traverse"] = []
 TREE_INSTANCES["traverse"] = []
 
-spec(lean="swc_len", module=_TF, file="swcgeom/core/swc.py", cls="SWCLike", func="__len__", tree_method="__len__",
+spec(lean="tf_swc_len", module=_TF, file="swcgeom/core/swc.py", cls="SWCLike", func="__len__", tree_method="__len__",
      params=["ids"], vars={"ids": "List Int"}, ret="Int", tree_cols={"self": {"id": "ids"}},
      doc="`swcgeom/core/swc.py::SWCLike.__len__` (the tree is its id column)")
 spec(lean="tree_getitem", module=_TF, file=_TREE, cls="Tree", func="__getitem__", tree_method="__getitem__",
